@@ -149,7 +149,7 @@ class C12:
     PROBES = ['fault_after_split', 'fault_in_subspine', 'fault_after_join', 'adjacent_faults', 'fault_in_non_kern', 'fault_in_last_row',
               'fault_in_bar_row', 'fault_in_interp_row', 'two_imports_one_process', 'history_err_then_valid', 'blank_line_before_fault',
               'fault_in_second_kern_spine', 'later_kern_cell_after_fault', 'dropped_row_resurrected', 'leading_blank_line', 'interrupt_delivered', 'same_malformed_text_twice_in_a_row',
-              'damaged_text_loaded_from_file', 'file_import_under_non_utf8_locale', 'reentrant_import_delivered', 'measure_range_export_checked']
+              'damaged_text_loaded_from_file', 'file_import_under_non_utf8_locale', 'reentrant_import_delivered', 'measure_range_export_checked', 'strict_and_deprecated_entry_points_compared']
 
     # ---------------------------------------------------------------- plan
     def gen_plan(self, seed, index, tier):
@@ -222,7 +222,7 @@ class C12:
                 # re-entrancy: at a seeded line event of the damaged import a callback (signal handler, finalizer, logging hook)
                 # imports ANOTHER text - damaged too - and returns; two imports are then in flight at once without any thread
                 'reenter': {'k_u': erng.randrange(1 << 30), 'which': erng.randrange(len(NESTED_TEXTS))} if erng.random() < 0.15 else None,
-                'logging': 'DEBUG' if erng.random() < 0.08 else 'default'}
+                'logging': 'DEBUG' if erng.random() < 0.08 else 'default', 'entry_points': erng.random() < 0.2}
 
     def _gen_history(self, st):
         rng, frng, erng = st['ops'], st['faults'], st['env']
@@ -346,6 +346,32 @@ class C12:
                 masked = self._check_damaged(kp, createImporter, doc, headers, faults, line_of, blank, ref_doc, bad_doc, bad_err, add_v, probes, bump, log)
                 if masked is not None:
                     self._check_exports(kp, doc, headers, faults, ref_kern, ref_ekern, ref_doc, bad_doc, masked, add_v, probes, bump, log)
+
+        # ---- the other public entry points on the same damaged text: strict mode raises exactly when errors were reported, the
+        #      deprecated create() reports the same errors and builds the same document
+        if faults and plan.get('entry_points') and 'bad_doc' in locals() and bad_doc is not None and plan.get('via') != 'file':
+            import warnings as _w
+            bump(probes, 'strict_and_deprecated_entry_points_compared')
+            # (a nested import consumed node ids in the middle of the damaged import: relative ids then differ legitimately)
+            same_ids = not plan.get('reenter')
+            try:
+                sd, se = kp.loads(bad_text, raise_on_errors=True)
+                strict = 'returned'
+            except Exception as e:
+                strict = 'raised'
+            if (strict == 'raised') != bool(bad_err):
+                add_v('entry-points-disagree', 'entry-points-disagree/strict', 'raised' if bad_err else 'returned', strict, errors=len(bad_err))
+            elif strict == 'returned' and same_ids and doc_snapshot(sd) != doc_snapshot(bad_doc):
+                add_v('entry-points-disagree', 'entry-points-disagree/strict-document', 'same document', 'differs')
+            try:
+                with _w.catch_warnings():
+                    _w.simplefilter('ignore')
+                    cd, ce = kp.create(bad_text)
+                if errors_snapshot(ce) != errors_snapshot(bad_err) or (same_ids and doc_snapshot(cd) != doc_snapshot(bad_doc)):
+                    add_v('entry-points-disagree', 'entry-points-disagree/create', errors_snapshot(bad_err)[:4], errors_snapshot(ce)[:4])
+            except Exception as e:
+                add_v('entry-points-disagree', 'entry-points-disagree/create-raised', 'a document and an error list', type(e).__name__)
+            log.emit('client', 'entry-points', None, strict)
 
         # ---- cross-import: the clean text again, in the same process, after the damaged import
         try:
